@@ -1,5 +1,5 @@
 """C03 — sources and single-input operators: termination shape (DESIGN §3 C03)."""
-from ..core import (Finding, lang_check, down_token, down_or_sched_token, SUBSCRIBE, FN_CALLS, down_method)
+from ..core import (Finding, lang_check, down_token, down_or_sched_token, SUBSCRIBE, FN_CALLS, down_method, node_desc)
 from .. import roles
 
 ID = 'C03'
@@ -7,7 +7,7 @@ LEVEL = 'other'
 EXPLANATION = ('LANG rules over the inlined MIR event graph of every source and every Observer impl: '
                'S1 each basic source delivers exactly its documented notification shape (of = next complete, never = nothing, ...); '
                'S2 error() forwards the error as the only downstream event (no item, aggregate or completion with it) and never swallows it; '
-               'S3 complete() delivers next* then exactly one complete; S5 is_finished answers true only for an empty slot or a finished downstream (otherwise a hot source skips the operator at its terminal); S6 the take_last/skip_last queues are first-in-first-out; S7 the take_last queue never holds more than `count` items after next(), for every count >= 0 (interval abstract interpretation of len - count); S8 the next() bodies of take, skip, skip_last, filter, take_while and skip_while agree with their definitions path by path (decision tables over the counter/bound difference, the predicate result and the mode flags; both directions); S4 next() never sends an error and completes downstream only in the '
+               'S3 complete() delivers next* then exactly one complete; S5 is_finished answers true only for an empty slot or a finished downstream (otherwise a hot source skips the operator at its terminal); S6 the take_last/skip_last queues are first-in-first-out; S7 the take_last queue never holds more than `count` items after next(), for every count >= 0 (interval abstract interpretation of len - count); S8 the next() bodies of take, skip, skip_last, filter, take_while and skip_while agree with their definitions path by path (decision tables over the counter/bound difference, the predicate result and the mode flags; both directions); S9 distinct_until_(key_)changed replace their remembered item by the incoming one exactly when they forward it and never empty it; S4 next() never sends an error and completes downstream only in the '
                'tabled early terminators. Decides the termination shape on every path and, for the six tabled counting/predicate operators, which items are forwarded; does not decide the values computed by user closures, accumulators, equality tests or the derived-operator compositions.')
 ASSUMPTIONS = ['value-level results of user closures, counters and predicates are not decided']
 TECHNIQUE = 'static analysis: regular-language inclusion of downstream event words over MIR event graphs (custom rustc_private driver)'
@@ -34,8 +34,18 @@ TASK_SPECS = {
 }
 
 # ---- S2/S3/S4: envelopes of the Observer methods, keyed by roles.impl_tag; default first
-DEFAULT = {'next': 'next*', 'error': 'error', 'complete': 'next* complete'}
+DEFAULT = {'next': 'next*', 'error': 'error', 'complete': 'complete'}
 EXC = {
+    # operators that release what they gathered when the input completes (flush, then complete)
+    'ops::last::LastObserver::complete': 'next? complete',
+    'ops::take_last::TakeLastObserver::complete': 'next* complete',
+    'ops::default_if_empty::DefaultIfEmptyObserver::complete': 'next? complete',
+    'ops::collect::CollectObserver::complete': 'next complete',
+    'ops::contains::ContainsObserver::complete': '(next complete)?',
+    'ops::buffer::BufferObserver::complete': 'next? complete',
+    'ops::buffer::BufferWithCountObserver::complete': 'next? complete',
+    'ops::debounce::DebounceObserver::complete': 'next? complete',
+    'ops::throttle::ThrottleObserver::complete': 'next? complete',
     # early terminators (complete from inside next, on the value taken out of the slot: C16.E4)
     'ops::take::TakeObserver::next': 'next? complete?',
     'ops::take_while::TakeWhileObserver::next': 'next? complete?',
@@ -97,11 +107,12 @@ CONTROLS = [
     'S6|src/verif_controls.rs field `stack`',
     'S7|<verif_controls::RingLast<O, Item> as Observer>::next',
     'S8|<verif_controls::OffByOneTake<O> as Observer>::next',
+    'S9|<verif_controls::ForgetfulDistinct<O, Item> as Observer>::next',
 ]
 
 
 def check(cx):
-    return s1(cx) + s234(cx) + s5(cx) + s6(cx) + s7(cx) + s8(cx)
+    return s1(cx) + s234(cx) + s5(cx) + s6(cx) + s7(cx) + s8(cx) + s9(cx)
 
 
 def _src_event(n):
@@ -429,4 +440,59 @@ def s8(cx):
         for t in S8_TABLE:
             if t not in seen:
                 res.append(Finding(ID, 'S8', 'table:' + t, False, 'operator not found (fail closed)'))
+    return res
+
+
+# ---- S9: operators that remember the previous item: the memory is replaced by the incoming item exactly when it is forwarded
+MEMORY = ['ops::distinct::DistinctUntilChangedObserver', 'ops::distinct::DistinctUntilKeyChangedObserver']
+
+
+def s9(cx):
+    from ..core import TAKE, recv_class
+    from ..expr import access_path, strip
+    F = cx.facts
+    res = []
+    seen = set()
+    for im in cx.observer_impls():
+        tag = roles.impl_tag(cx, im)
+        if tag not in MEMORY and not (cx.control and tag == 'verif_controls::ForgetfulDistinct'):
+            continue
+        seen.add(tag)
+        mem = roles.field_where(cx, tag, lambda t, ti: roles.is_option_of(F, t, lambda x: x['k'] == 'param'), 'remembered item')
+        fn = cx.method(im, 'next')
+        g = cx.graph(fn['key'])
+        label = cx.label(fn)
+
+        def is_mem(e):
+            root, steps = access_path(e)
+            return root[0] == 'arg' and root[1] == 1 and bool(steps) and steps[0] == mem
+
+        emptied = [x for x in g.nodes if x['kind'] == 'call' and x['name'] in TAKE and x['args'] and is_mem(x['args'][0])]
+
+        def ev(x):
+            if x['kind'] == 'assign' and is_mem(x['lhs']) and access_path(x['lhs'])[1] == [mem]:
+                r = strip(x['rhs'])
+                if r[0] == 'agg' and r[2].endswith('Option::Some') and r[3] and mentions_item(r[3][0]):
+                    return ('store',)
+                return ('badstore',)
+            if down_method(x) == 'next':
+                return ('emit',)
+            return None
+
+        def mentions_item(e):
+            from ..core import mentions
+            return mentions(e, lambda y: y[0] == 'arg' and y[1] == 2)
+        bad = lang_check(g, '(store emit)?', ev, exact=True, empty_ok=False)
+        if emptied:
+            res.append(Finding(ID, 'S9', label, False,
+                               'the remembered previous item is taken out of its cell: after a suppressed duplicate nothing is remembered and the next equal item is forwarded again',
+                               g.loc(emptied[0]), [node_desc(g, emptied[0])]))
+        elif bad:
+            res.append(Finding(ID, 'S9', label, False, 'the remembered item must be replaced by the incoming item exactly when it is forwarded: ' + bad[0], fn['span'], bad[1]))
+        else:
+            res.append(Finding(ID, 'S9', label, True, 'memory `%s` is overwritten with the incoming item exactly on the forwarding paths and never emptied' % mem, fn['span']))
+    if not cx.control:
+        for t in MEMORY:
+            if t not in seen:
+                res.append(Finding(ID, 'S9', 'table:' + t, False, 'operator not found (fail closed)'))
     return res
